@@ -345,7 +345,7 @@ def run(report, tier: str, seed: int, prop: str) -> dict:
             report.machinery(f"SchedCache.tla {cfg}: the pre-fix variant was not found (the model lost its teeth):\n" + out[-1500:])
     rng = random.Random(seed * 53 + 11)
     cases = scripted()
-    for _ in range({"quick": 200, "thorough": 4000}[tier]):
+    for _ in range({"quick": 200, "thorough": 2000}[tier]):
         cases.append(random_actions(rng, rng.choice([20, 40, 60])))
     lines = [{"id": i, "acts": acts} for i, acts in enumerate(cases)]
     work = tlc.scratch_dir("vsc-")
